@@ -32,6 +32,20 @@ def order_pool():
     P["u_2"] = X.set_([N(2), X.string("a")])
     P["s2"] = X.set_([N(2)])
     P["s13"] = X.set_([N(1), N(3)])
+    # near-miss pairs
+    P["ar_empty_mid"] = X.arr([N(1), X.set_([]), N(3)])          # vs ar_hole = [1, , 3]
+    P["ar_empty_mid2"] = X.arr([N(1), X.set_([]), N(4)])
+    P["te_19"] = X.tup([("@", N(1)), ("@value", N(9))])
+    P["te_23"] = X.tup([("@", N(2)), ("@value", N(3))])
+    P["te_13"] = X.tup([("@", N(1)), ("@value", N(3))])
+    P["ti_19"] = X.tup([("@", N(1)), ("@item", N(9))])
+    P["ti_23"] = X.tup([("@", N(2)), ("@item", N(3))])
+    P["tc_1"] = X.tup([("@", N(1)), ("@char", N(99))])
+    P["tc_2"] = X.tup([("@", N(2)), ("@char", N(97))])
+    P["tb_1"] = X.tup([("@", N(1)), ("@byte", N(9))])
+    P["tb_2"] = X.tup([("@", N(2)), ("@byte", N(3))])
+    P["d19_23"] = X.dict_([(N(1), N(9)), (N(2), N(3))])
+    P["rj_ba"] = X.join("<&>", X.rel(["b"], [[N(2)], [N(3)]]), X.rel(["a"], [[N(1)]]))
     P["tt"] = X.tup([("a", X.tup([("b", N(1))]))])
     P["tset"] = X.tup([("a", X.set_([N(1)]))])
     return P
